@@ -142,6 +142,12 @@ def indented_block_shape(fb):
     return True, ''
 
 
+def _stmt_of(n):
+    while n is not None and not isinstance(n, ast.stmt):
+        n = getattr(n, '_parent', None)
+    return n
+
+
 def run(ctx):
     repo = ctx.repo
     m = repo.mod(L2T)
@@ -709,6 +715,45 @@ def run(ctx):
                      'on what the process rendered before (an accent remembered per base letter, a spec remembered per name) '
                      '(C08 R08k)', 1)
     _core.run_proxied(ctx, _c08, 'R03s', ('R08k',))
+
+    # ---- R03t: the policy dictionary handed out by the preset parser is not edited by its callers
+    ctx.rule('R03t', '_parse_strict_latex_spaces_dict() returns the module-level preset tables themselves (no copy) for the named '
+                     'policies: no caller writes into what it returns (`d[k] = ..`, update, pop, setdefault, clear, del) -- such a '
+                     'write edits the shared preset, and every converter created afterwards with that policy name follows '
+                     'another policy than the one selected', 1)
+    pmods_ = set(m.toplevel_names()) if hasattr(m, 'toplevel_names') else {
+        t_.id for st_ in m.tree.body if isinstance(st_, ast.Assign) for t_ in st_.targets if isinstance(t_, ast.Name)}
+    shared_ret = [r_ for r_ in iter_own(pf) if isinstance(r_, ast.Return) and r_.value is not None and (
+        (isinstance(r_.value, ast.Subscript) and isinstance(r_.value.value, ast.Name) and r_.value.value.id in pmods_) or
+        (isinstance(r_.value, ast.Name) and r_.value.id in pmods_))]
+    n_t = 0
+    MUT_ = ('update', 'pop', 'setdefault', 'clear', 'popitem', '__setitem__', '__delitem__')
+    for q_, f_ in sorted(m.functions.items()):
+        tn_ = set()
+        for st_ in iter_own(f_):
+            if isinstance(st_, ast.Assign) and isinstance(st_.value, ast.Call) and \
+                    call_name(st_.value) == '_parse_strict_latex_spaces_dict':
+                for t_ in st_.targets:
+                    tn_.add(unparse(t_))
+        if not tn_:
+            continue
+        n_t += 1
+        badw = None
+        for x_ in iter_own(f_):
+            if isinstance(x_, ast.Subscript) and isinstance(x_.ctx, (ast.Store, ast.Del)) and unparse(x_.value) in tn_:
+                badw = badw or x_
+            if isinstance(x_, ast.Call) and isinstance(x_.func, ast.Attribute) and x_.func.attr in MUT_ and \
+                    unparse(x_.func.value) in tn_:
+                badw = badw or x_
+        ctx.decide('R03t', badw is None or not shared_ret, m, badw if badw is not None else f_,
+                   '%s does not write into the policy dictionary it obtained' % q_,
+                   '%s writes into the dictionary returned by _parse_strict_latex_spaces_dict() (%s), which for a named policy is '
+                   'the module-level preset table itself (%s): the preset is changed for the whole process, and a converter '
+                   'created later with the same policy name no longer follows the documented policy'
+                   % (q_, short(_stmt_of(badw), 60) if badw is not None else '',
+                      short(shared_ret[0], 50) if shared_ret else ''), construct='%s: write into the parsed policy' % q_)
+    if not n_t:
+        ctx.unknown('R03t', m, pf, 'no caller of _parse_strict_latex_spaces_dict found', construct='parsed policy writes')
 
     return 'other', (
         'Decides the policy tables against the documented semantics and the shape of the functions '
